@@ -163,10 +163,17 @@ def linear_objects(aa, rng, case, nobj=None, kinds=("rect", "del", "func"), allo
                 M[0, :] += 1.0
             reg = None if unreg else aa.reg.Zeroth(coefficient=float(rng.uniform(0.2, 2)))
             override = None
+            ovk = False
             if overrides and rng.random() < 0.4:
                 override = np.asarray(ds.convolver.convolve_mapping_matrix(mapping_matrix=M.copy()), float)
+                ovk = "as_blurred"
+                if rng.random() < 0.5:
+                    # the documented purpose of the hook: light that the PSF blurs into the mask from outside it - the operated
+                    # columns are then NOT the blurred mapping matrix; the object's columns of B are the override itself
+                    override = override + 0.3 * rng.normal(size=override.shape) * (rng.random(override.shape) < 0.5)
+                    ovk = "with_light_from_outside_the_mask"
             objs.append(Func(grid=ds.grids.uniform, M=M, regularization=reg, override=override))
-            desc.append({"kind": "func", "matrix": mk, "params": p, "regularized": reg is not None, "operated_override": override is not None})
+            desc.append({"kind": "func", "matrix": mk, "params": p, "regularized": reg is not None, "operated_override": ovk})
             continue
         if unreg:
             reg = None
@@ -185,5 +192,8 @@ def reference_B(case, objs):
     """B = C_ref . hstack(M_obj): independent convolution matrix times the objects' own mapping matrices."""
     from harness import ref
     C = ref.conv_matrix(case["m"], case["k_used"])
-    M = np.hstack([np.asarray(o.mapping_matrix, float) for o in objs])
-    return C @ M, C
+    cols = []
+    for o in objs:
+        ov = getattr(o, "operated_mapping_matrix_override", None)
+        cols.append(np.asarray(ov, float) if ov is not None else C @ np.asarray(o.mapping_matrix, float))
+    return np.hstack(cols), C
